@@ -32,6 +32,25 @@ func (c *Canon) ID(u sop.UUID) int {
 	c.m[u] = len(c.r)
 	return len(c.r)
 }
+// Export lists the UUIDs in canonical order; Import rebuilds a Canon from such a list (cross-process canonicalisation).
+func (c *Canon) Export() []string {
+	c.mu.Lock()
+	defer c.mu.Unlock()
+	out := make([]string, len(c.r))
+	for i, u := range c.r {
+		out[i] = u.String()
+	}
+	return out
+}
+func ImportCanon(ids []string) *Canon {
+	c := NewCanon()
+	for _, s := range ids {
+		if u, err := sop.ParseUUID(s); err == nil {
+			c.ID(u)
+		}
+	}
+	return c
+}
 func (c *Canon) Known(u sop.UUID) bool {
 	c.mu.Lock()
 	defer c.mu.Unlock()
